@@ -142,7 +142,81 @@ func init() {
 					e["zero"] = 1
 				}
 				c.emit(e)
-			case 5, 6: // DistanceFrom over all boundary segments of every kind
+			case 6: // DistanceFromWithIndex on multi-part geometries: the index names a part that attains the minimum
+				p := [2]int{iv(8), iv(8)}
+				closedRing := func() [][2]int { r := ring(8, 5); return append(r[:len(r):len(r)], r[0]) }
+				var groups [][][][2]int // parts -> paths
+				var g orb.Geometry
+				np := 2 + c.rng.Intn(3)
+				switch c.rng.Intn(4) {
+				case 0: // multipolygon: parts are polygons (outer ring and possibly a hole)
+					mp := orb.MultiPolygon{}
+					for j := 0; j < np; j++ {
+						rs := [][][2]int{closedRing()}
+						poly := orb.Polygon{ringOf(rs[0], 1)}
+						if c.rng.Intn(3) == 0 {
+							h := closedRing()
+							rs = append(rs, h)
+							poly = append(poly, ringOf(h, 1))
+						}
+						groups = append(groups, rs)
+						mp = append(mp, poly)
+					}
+					g = mp
+				case 1: // multi line string
+					mls := orb.MultiLineString{}
+					for j := 0; j < np; j++ {
+						l := ring(8, 3+c.rng.Intn(2))
+						groups = append(groups, [][][2]int{l})
+						mls = append(mls, orb.LineString(ringOf(l, 1)))
+					}
+					g = mls
+				case 2: // polygon: parts are rings
+					poly := orb.Polygon{}
+					for j := 0; j < np; j++ {
+						r := closedRing()
+						groups = append(groups, [][][2]int{r})
+						poly = append(poly, ringOf(r, 1))
+					}
+					g = poly
+				default: // collection of polygons, lines and a multipolygon
+					col := orb.Collection{}
+					for j := 0; j < np; j++ {
+						switch c.rng.Intn(3) {
+						case 0:
+							r := closedRing()
+							groups = append(groups, [][][2]int{r})
+							col = append(col, orb.Polygon{ringOf(r, 1)})
+						case 1:
+							l := ring(8, 3)
+							groups = append(groups, [][][2]int{l})
+							col = append(col, orb.LineString(ringOf(l, 1)))
+						default:
+							r1, r2 := closedRing(), closedRing()
+							groups = append(groups, [][][2]int{r1, r2})
+							col = append(col, orb.MultiPolygon{{ringOf(r1, 1)}, {ringOf(r2, 1)}})
+						}
+					}
+					g = col
+				}
+				if c.rng.Intn(3) == 0 { // a query point inside the box of a later part, or on its boundary
+					s := groups[len(groups)-1][0]
+					j := c.rng.Intn(len(s) - 1)
+					p = [2]int{(s[j][0] + s[j+1][0]) / 2, (s[j][1] + s[j+1][1]) / 2}
+				}
+				pt := orb.Point{float64(p[0]), float64(p[1])}
+				e := map[string]interface{}{"k": "distidx", "groups": groups, "p": p, "nt": 1}
+				setCurrent("planar.DistanceFromWithIndex", e)
+				var d float64
+				var idx int
+				site := guard(func() { d, idx = planar.DistanceFromWithIndex(g, pt) })
+				if site != "" {
+					c.emit(panicEvent("planar.DistanceFromWithIndex", site, e))
+					continue
+				}
+				e["q"], e["idx"] = rnd(d*d, 10000), idx
+				c.emit(e)
+			case 5: // DistanceFrom over all boundary segments of every kind
 				p := [2]int{iv(8), iv(8)}
 				pt := orb.Point{float64(p[0]), float64(p[1])}
 				var paths [][][2]int
